@@ -29,3 +29,14 @@ chk("C16",
     "algorithm); 'distinct inputs give distinct outputs' is pseudo-randomness, sampled as a labelled test, not a theorem.",
     "Lean 4 proof (loop invariant by induction) + recorded-oracle differential correspondence",
     "6/C16")
+chk("C14",
+    "Unbounded theorems (Props/C14.lean) for an arbitrary block cipher with blockDec k (blockEnc k x) = x on 16-byte blocks: "
+    "Decrypt(k, Encrypt(k, iv, m)) = m for every message (empty and block-aligned included), every 16-byte IV and every accepted key; "
+    "ciphertext length = 16 + 16*(len(m)//16 + 1); the ciphertext starts with the IV, hence different IVs give different ciphertexts; "
+    "bad padding and every declared key/message/cipher-length mismatch is refused with ValueError; constructor contracts. "
+    "Tied to toolkit/symmetric_encryption/aes.py by a differential run in which os.urandom supplies known IVs and the AES block function is "
+    "recorded via AES-ECB: ciphertext bytes must match exactly for all lengths 0..80, three key sizes, wrong-key/tampered/truncated inputs.",
+    "Trusted: Lean kernel + 3 standard axioms; the AES block function is a leaf (recorded); PKCS7 and CBC of the `cryptography` package are modelled "
+    "from their specification and validated by the correspondence only; 'a different key never returns the message' is AES behaviour (labelled test).",
+    "Lean 4 proof (CBC/PKCS7 inversion by induction) + recorded-oracle differential correspondence",
+    "6/C14")
